@@ -1,5 +1,6 @@
 """C20 - incompatible schema versions are refused, and migration preserves every job."""
 import ast
+import os
 
 from ..engine import rule, Ctx
 from ..core import UNKNOWN, dotted, kwarg, body_nodes, inline, stmt_key, canon, walk_no_nested, names_in
@@ -263,4 +264,63 @@ def c20_e(ctx: Ctx):
     return out
 
 
-RULES = [c20_a, c20_b, c20_c, c20_d, c20_e]
+@rule("C20-f")
+def c20_f(ctx: Ctx):
+    """The v1->v2 migration moves files to exactly the names the current code reads."""
+    R = "C20-f"
+    out = []
+    f = ctx.fn(MIG + ".v1_to_v2:_migrate_v1_to_v2")
+    pm = ctx.prog.mod("signac.project")
+    cache = ctx.fold(ast.parse("Project.FN_CACHE", mode="eval").body, None, ctx.prog.mod(MIG + ".v1_to_v2"))
+    cfgfn = ctx.fold(ast.Name(id="PROJECT_CONFIG_FN", ctx=ast.Load()), None, ctx.prog.mod("signac._config"))
+    # cache target
+    ftm = [n for n in body_nodes(f) if isinstance(n, ast.Assign) and any(isinstance(t, ast.Name) and t.id == "files_to_move" for t in n.targets)]
+    if ftm and isinstance(ftm[0].value, ast.Dict):
+        v = ctx.fold(ftm[0].value, f)
+        if isinstance(v, dict):
+            tgt = v.get(".signac_sp_cache.json.gz")
+            if tgt == cache:
+                out.append(ctx.ok(R, f, ftm[0], f"the v1 state point cache is moved to Project.FN_CACHE ({cache})"))
+            else:
+                out.append(ctx.viol(R, f, ftm[0], f"the v1 state point cache is moved to {tgt!r} but the project reads {cache!r}"))
+        else:
+            out.append(ctx.inc(R, f, ftm[0], "files_to_move does not fold"))
+    # config target: _get_project_config_fn(root)
+    v2 = [n for n in body_nodes(f) if isinstance(n, ast.Assign) and any(isinstance(t, ast.Name) and t.id == "v2_fn" for t in n.targets)]
+    if v2 and isinstance(v2[0].value, ast.Call) and "signac._config:_get_project_config_fn" in common.targets_of(ctx, f, v2[0].value):
+        out.append(ctx.ok(R, f, v2[0], f"the config file is moved to the path the project loader uses (_get_project_config_fn -> {cfgfn})"))
+    else:
+        out.append(ctx.inc(R, f, f.node, "target of the config move not recognised"))
+    ld = ctx.fn(MIG + ".v1_to_v2:_load_config_v2")
+    j = [c for c in body_nodes(ld) if isinstance(c, ast.Call) and common.ext_name(ctx, ld, c) == "os.path.join" and len(c.args) == 3]
+    if j:
+        parts = [ctx.fold(a, ld) for a in j[0].args[1:]]
+        if all(isinstance(x, str) for x in parts) and os.path.join(*parts) == cfgfn:
+            out.append(ctx.ok(R, ld, j[0], "the v2 config loader of the migration reads the same file name as the project loader"))
+        else:
+            out.append(ctx.viol(R, ld, j[0], f"the migration's v2 loader reads {parts} but projects are configured in {cfgfn!r}: the version bump cannot be written / read back"))
+    # workspace name
+    nw = [n for n in body_nodes(f) if isinstance(n, ast.Assign) and any(isinstance(t, ast.Name) and t.id == "new_workspace" for t in n.targets)]
+    pi = ctx.fn(PI)
+    ws = [n for n in body_nodes(pi) if isinstance(n, ast.Assign) and any(canon(t) == "self._workspace" for t in n.targets)]
+    if nw and ws:
+        a = ctx.fold(nw[0].value.args[-1], f) if isinstance(nw[0].value, ast.Call) and nw[0].value.args else None
+        b = ctx.fold(ws[0].value.args[-1], pi) if isinstance(ws[0].value, ast.Call) and ws[0].value.args else None
+        if a == b and isinstance(a, str):
+            out.append(ctx.ok(R, f, nw[0], f"a custom workspace directory is moved to '{a}', the fixed workspace name of schema 2"))
+        else:
+            out.append(ctx.viol(R, f, nw[0], f"the migration moves the workspace to {a!r} but Project uses {b!r}: migrated projects appear empty"))
+    else:
+        out.append(ctx.inc(R, f, f.node, "workspace names not found"))
+    # project name goes to the project document under the documented key, only when non-default
+    doc = [n for n in body_nodes(f) if isinstance(n, ast.Assign) and any(isinstance(t, ast.Subscript) and canon(t.value) == "doc" for t in n.targets)]
+    for d in doc:
+        facts = common.facts_at(ctx, f, d, "n")
+        if any((not pol) and "'None'" in t for (t, pol) in facts):
+            out.append(ctx.ok(R, f, d, "the project name is stored in the project document only if it is not the default"))
+        else:
+            out.append(ctx.viol(R, f, d, "the project document is written even for the default project name: migrating changes the documents of projects that had none"))
+    return out
+
+
+RULES = [c20_a, c20_b, c20_c, c20_d, c20_e, c20_f]
